@@ -118,7 +118,7 @@ struct RunOut {
     verbs: BTreeMap<String, (u64, u64)>,
 }
 
-fn one_run(run: usize, seed: u64, steps: usize, index: u64, timeout_s: u32, certs: bool) -> RunOut {
+fn one_run(run: usize, seed: u64, steps: usize, index: u64, mute_timeout_s: u32, certs: bool) -> RunOut {
     let mut out = RunOut { events: Vec::new(), violations: Vec::new(), ops: 0, failures: 0, oks: 0, faults: 0, verbs: BTreeMap::new() };
     let mut rng = Rng((seed.wrapping_mul(7919) + run as u64).wrapping_mul(0x9E3779B97F4A7C15) | 1);
     let conc = conc_for(index);
@@ -128,6 +128,10 @@ fn one_run(run: usize, seed: u64, steps: usize, index: u64, timeout_s: u32, cert
         .collect();
     let n_init = 1 + rng.next(3);
     let kinds = vec![Kind::Real; n_init];
+    let with_mute = rng.next(6) == 0;
+    // A time-out is only ever expected once the mute worker is there: the other runs get a worker time-out no
+    // loaded machine can reach (a lost answer still shows, as a failure after that time).
+    let timeout_s = if with_mute { mute_timeout_s } else { 12 };
     let mut rig = match Rig::start(&kinds, timeout_s) {
         Ok(r) => r,
         Err(e) => {
@@ -138,7 +142,6 @@ fn one_run(run: usize, seed: u64, steps: usize, index: u64, timeout_s: u32, cert
     let deadline = Duration::from_secs(timeout_s as u64 + 4);
     let save_path = rig.dir().join("saved.json").to_string_lossy().to_string();
     out.events.push(json!({"ev": "reset", "run": run, "init": (0..n_init).map(|i| i.to_string()).collect::<Vec<_>>()}));
-    let with_mute = rng.next(6) == 0;
     let mut next_real = n_init as u32;
     let total_steps = steps + if with_mute { 3 } else { 0 };
     let cert_tokens: Vec<&str> = if certs { vec!["k1", "k2", "kp"] } else { vec![] };
@@ -240,7 +243,7 @@ fn main() {
     vh::util::quiet_panics();
     let args: Vec<String> = std::env::args().collect();
     let (mut seed, mut runs, mut steps, mut threads, mut out_path, mut index_base, mut timeout_s, mut certs) =
-        (1u64, 8usize, 40usize, 8usize, String::from("/dev/null"), 0u64, 1u32, true);
+        (1u64, 8usize, 40usize, 8usize, String::from("/dev/null"), 0u64, 2u32, true);
     let mut i = 1;
     while i < args.len() {
         match args[i].as_str() {
